@@ -78,6 +78,8 @@ def op_text(op):
       return "query filter %d %d %d" % (op[2], op[3], 1 if op[4] else 0)
     if q == "bindings":
       return "query bindings %d %s" % (op[2], _opt(op[3]))
+    if q == "stats":
+      return "query stats"
   raise ValueError("bad op %r" % (op,))
 
 
@@ -122,6 +124,8 @@ def parse_op(text):
       return ("query", "filter", int(w[2]), int(w[3]), w[4] not in ("0", "False"))
     if q == "bindings":
       return ("query", "bindings", int(w[2]), _popt(w[3]))
+    if q == "stats":
+      return ("query", "stats")
   raise ValueError("bad op text %r" % text)
 
 
@@ -169,7 +173,7 @@ def driver_lines(ops, addrs=None, cold=False):
   out = ["reset" + ("" if not addrs else " " + " ".join(str(a) for a in addrs))]
   for op in ops:
     l = driver_line(op, dt)
-    if cold and op[0] == "query":
+    if cold and op[0] == "query" and op[1] != "stats":
       l = "cold " + l[len("query "):]
     out.append(l)
   return out
@@ -226,6 +230,7 @@ class Real:
       if q == "visible": return 0 <= op[2] < nb and 0 <= op[3] < nn
       if q == "filter": return 0 <= op[2] < nv and 0 <= op[3] < nn
       if q == "bindings": return 0 <= op[2] < nv and on(op[3])
+      if q == "stats": return True
     return False
 
   def apply(self, op):
@@ -290,6 +295,10 @@ class Real:
       return _lst(x.id for x in V[op[2]].Filter(N[op[3]], op[4]))
     if q == "bindings":
       return _lst(x.id for x in V[op[2]].Bindings(None if op[3] is None else N[op[3]]))
+    if q == "stats":
+      # observational: solvers created so far (invalidated ones + the live one), memo size of the latest
+      sm = self.p.calculate_metrics().solver_metrics
+      return "%d %d" % (len(sm), sm[-1].cache_metrics.total_size if sm else 0)
     raise ValueError(op)
 
   def run(self, ops):
@@ -412,19 +421,28 @@ def _subset(rng, n, pmax=3):
   return tuple(sorted(rng.sample(range(n), k)))
 
 
+def _nss(b):
+  """number of source sets of a real binding (all origins)."""
+  return sum(len(o.source_sets) for o in b.origins)
+
+
 def gen_mutation(rng, real, prof):
   """One random mutating op valid in `real`'s current state.  prof: dict of knobs
-  (max_nodes, max_vars, max_bindings, cyclic, conds, labels)."""
+  (max_nodes, max_vars, max_bindings, cyclic, conds, labels).  Size guards keep source sets from
+  multiplying (pasting copies every source set; the solver enumerates their combinations)."""
   nn, nv, nb = len(real.nodes), len(real.vars), len(real.b)
   if nn == 0:
     return ("node", None)
   if nv == 0:
     return ("var",)
   labels = prof.get("labels", 4)
+  maxb = prof.get("max_bindings", 16)
+  maxv = prof.get("max_vars", 6)
   cond = lambda: (rng.randrange(nb) if (nb and prof.get("conds", True) and rng.random() < 0.25) else None)
   wnode = lambda: rng.randrange(nn)
   ownode = lambda: (rng.randrange(nn) if rng.random() < 0.6 else None)
-  for _ in range(50):
+  small = lambda b: _nss(real.b[b]) <= 4 and len(real.b[b].origins) <= 3
+  for _ in range(60):
     r = rng.random()
     if r < 0.16:
       if nn >= prof.get("max_nodes", 12):
@@ -434,59 +452,92 @@ def gen_mutation(rng, real, prof):
       return ("connect_new", rng.randrange(max(0, nn - 4), nn) if rng.random() < 0.7 else wnode(), cond())
     if r < 0.30:
       a, b = wnode(), wnode()
-      if not prof.get("cyclic", True) and a >= b:
+      if not prof.get("cyclic", True):
         a, b = min(a, b), max(a, b)
         if a == b:
           continue
       return ("connect", a, b)
     if r < 0.35:
-      if nv >= prof.get("max_vars", 6):
+      if nv >= maxv:
         continue
       return ("var",)
     if r < 0.58:
-      if nb >= prof.get("max_bindings", 20) and rng.random() < 0.8:
-        # re-bind existing data (adds an origin to an existing binding)
-        pass
-      return ("bind", rng.randrange(nv), "d%d" % rng.randrange(labels), _subset(rng, nb), wnode())
+      v = rng.randrange(nv)
+      vb = real.vars[v].bindings
+      if nb >= maxb or (vb and rng.random() < 0.25):
+        if not vb:
+          continue
+        x = rng.choice(vb)        # existing data: adds an origin / source set to an existing binding
+        if not small(x.id):
+          continue
+        lab = x.data[len("data:"):] if isinstance(x.data, str) else None
+        if lab is None:
+          continue
+        return ("bind", v, lab, _subset(rng, nb), wnode())
+      return ("bind", v, "d%d" % rng.randrange(labels), _subset(rng, nb), wnode())
     if r < 0.70:
       if nb == 0:
         continue
-      return ("origin", rng.randrange(nb), wnode(), _subset(rng, nb))
+      b = rng.randrange(nb)
+      if not small(b):
+        continue
+      return ("origin", b, wnode(), _subset(rng, nb))
     if r < 0.76:
-      if nb == 0:
+      if nb == 0 or nb >= maxb + 4:
         continue
-      return ("paste", rng.randrange(nv), rng.randrange(nb), ownode(), _subset(rng, nb, 1))
+      b = rng.randrange(nb)
+      if not small(b):
+        continue
+      return ("paste", rng.randrange(nv), b, ownode(), _subset(rng, nb, 1))
     if r < 0.79:
-      return ("paste_var", rng.randrange(nv), rng.randrange(nv), ownode(), _subset(rng, nb, 1))
+      v2 = rng.randrange(nv)
+      vb = real.vars[v2].bindings
+      if nb + len(vb) > maxb + 4 or len(vb) > 3 or not all(small(x.id) for x in vb):
+        continue
+      return ("paste_var", rng.randrange(nv), v2, ownode(), _subset(rng, nb, 1))
     if r < 0.83:
-      if nb == 0:
+      if nb == 0 or nb >= maxb + 4:
         continue
-      return ("paste_new_data", rng.randrange(nv), rng.randrange(nb), "d%d" % rng.randrange(labels))
+      b = rng.randrange(nb)
+      if not small(b):
+        continue
+      return ("paste_new_data", rng.randrange(nv), b, "d%d" % rng.randrange(labels))
     if r < 0.86:
-      if nb == 0 or nv >= prof.get("max_vars", 6) + 2:
+      if nb == 0 or nv >= maxv + 2 or nb >= maxb + 4:
         continue
-      return ("assign", rng.randrange(nb), ownode())
+      b = rng.randrange(nb)
+      if not small(b):
+        continue
+      return ("assign", b, ownode())
     if r < 0.88:
-      if nv >= prof.get("max_vars", 6) + 2:
+      if nv >= maxv + 2:
         continue
-      return ("assign_var", rng.randrange(nv), ownode())
+      v = rng.randrange(nv)
+      vb = real.vars[v].bindings
+      if nb + len(vb) > maxb + 4 or not all(small(x.id) for x in vb):
+        continue
+      return ("assign_var", v, ownode())
     if r < 0.95:
       if not prof.get("conds", True):
         continue
       return ("setcond", wnode(), rng.randrange(nb) if (nb and rng.random() < 0.8) else None)
     if r < 0.97:
+      if nb >= maxb:
+        continue
       return ("bind0", rng.randrange(nv), "d%d" % rng.randrange(labels))
-    if nv >= prof.get("max_vars", 6) + 2:
+    if nv >= maxv + 2 or nb >= maxb:
       continue
     return ("var_with", wnode(), _subset(rng, nb, 1),
             tuple("d%d" % rng.randrange(labels) for _ in range(rng.randrange(0, 3))))
-  return ("bind", rng.randrange(nv), "d0", (), wnode())
+  return ("connect", wnode(), wnode()) if prof.get("cyclic", True) else ("var",) if nv < maxv else ("setcond", wnode(), None)
 
 
 def gen_query(rng, real):
   nn, nv, nb = len(real.nodes), len(real.vars), len(real.b)
   if nn == 0:
     return None
+  if rng.random() < 0.06:
+    return ("query", "stats")
   r = rng.random()
   if nb and r < 0.5:
     k = min(nb, rng.choice([0, 1, 1, 2, 2, 2, 3, 3, 4]))
@@ -502,3 +553,35 @@ def gen_query(rng, real):
   if nv:
     return ("query", "bindings", rng.randrange(nv), rng.randrange(nn) if rng.random() < 0.9 else None)
   return None
+
+
+# ------------------------------------------------------------------------------------------------
+# process pool with a wall-clock guard (the real solver has no timeout of its own)
+# ------------------------------------------------------------------------------------------------
+def parallel(fn, tasks, workers, timeout_s):
+  """Yields fn(task) for every task (any order).  Raises common.Timeout when the whole map exceeds
+  timeout_s; a worker that dies (crash inside the C++ extension) yields fn-shaped `None` results via
+  the exception path: the caller sees RuntimeError('worker crashed')."""
+  import concurrent.futures as cf
+  import multiprocessing as mp
+  import time as _t
+  from harness import common as _c
+  if not tasks:
+    return
+  t0 = _t.time()
+  ex = cf.ProcessPoolExecutor(max_workers=min(workers, len(tasks)), mp_context=mp.get_context("fork"))
+  try:
+    futs = [ex.submit(fn, t) for t in tasks]
+    for f in cf.as_completed(futs, timeout=timeout_s):
+      yield f.result()
+  except cf.TimeoutError:
+    for p in list(getattr(ex, "_processes", {}).values()):
+      try:
+        p.kill()
+      except Exception:
+        pass
+    raise _c.Timeout("correspondence workers exceeded %ds (%.0fs elapsed)" % (timeout_s, _t.time() - t0))
+  except cf.process.BrokenProcessPool:
+    raise RuntimeError("a correspondence worker crashed inside the real extension")
+  finally:
+    ex.shutdown(wait=False, cancel_futures=True)
